@@ -151,6 +151,9 @@ Faults(T) ==
   \* invalid type: a character outside [A-Za-z0-9.+-] or an escaped one, at every position
   \cup {F(Glue([p EXCEPT !.type = InsStr(p.type, i, b)]), "InvalidPackageType", "invalid character in type")
           : i \in 0..Len(p.type), b \in BadTypeChars}
+  \* a letter of the type itself written as an escape (upper / lower hex): the type must not be percent-decoded
+  \cup {F(Glue([p EXCEPT !.type = EscUp(p.type[1]) \o Tail(p.type)]), "InvalidPackageType", "first letter of the type escaped"),
+        F(Glue([p EXCEPT !.type = Take(p.type, Len(p.type) - 1) \o EscLo(p.type[Len(p.type)])]), "InvalidPackageType", "last letter of the type escaped")}
   \* no name
   \cup {F(Glue([p EXCEPT !.name = <<>>]), "MissingName", "empty name"),
         F(p.pre \o p.type \o p.qs \o p.sb, "MissingName", "no slash after type")}
